@@ -21,6 +21,7 @@ OUT=$CACHE/$H
 mkdir -p $OUT
 exec 9>$OUT/.lock
 flock 9
+echo "$REPO" > $OUT/repo.txt
 
 need_S=0; need_R=0; need_X=0
 case $WANT in *S*) [ -x $OUT/engineS.test ] || need_S=1;; esac
@@ -31,8 +32,9 @@ if [ $need_S = 0 ] && [ $need_R = 0 ] && [ $need_X = 0 ]; then
   echo $OUT; exit 0
 fi
 
-# keep one generation: drop other cache entries
-for d in $CACHE/*/; do
+# keep one generation: drop other cache entries (not while several trees are checked side by side:
+# bin/agents/evalwave_par.sh sets KNUTSIM_KEEP_CACHE and removes its entries itself)
+[ -n "${KNUTSIM_KEEP_CACHE:-}" ] || for d in $CACHE/*/; do
   d=${d%/}
   [ "$d" = "$OUT" ] && continue
   case "$(basename "$d")" in
